@@ -118,6 +118,9 @@ def ty_oracle(job, cs, manual):
 def ty_forms(job, cs):
     """[(form name, value, manual?)]"""
     out = [('text2', txt2(cs), False), ('float', cs / 100.0, False)]
+    # decimal comma (the Norwegian way of writing it; accepted for jumps and throws): a form ending in '?' may be refused with ValueError,
+    # but if it is answered the answer must be that of the dot form
+    out.append(('text2-comma?', txt2(cs).replace('.', ','), False))
     if cs % 100 == 0:
         out.append(('int', cs // 100, False))
     if job['timed']:
@@ -388,6 +391,9 @@ def sweep(job):
             try:
                 got = S['call'](job, val)
             except Exception as e:
+                if name.endswith('?') and isinstance(e, ValueError):
+                    acc.add('optional_forms_refused')
+                    continue
                 acc.bad('C11:%s:raises-%s:%s' % (job['sys'], type(e).__name__, name), case, 'raised %r' % (e,))
                 acc.bad('C05:%s:raises-%s:%s' % (job['sys'], type(e).__name__, name), case, 'raised %r' % (e,))
                 continue
